@@ -692,6 +692,9 @@ def run_prism_sys_history(ctx, case):
         kind = str(rng.choice(['sigma_equal', 'sigma_equal', 'sigma_other', 'diameter', 'diameter', 'new_potential', 'kT']))
         if kind.startswith('sigma'):
             cur = float(G.sigma_of(sp, a, b)) if sp['pot'][key].get('sigma') is None else float(sp['pot'][key]['sigma'])
+            if s2.potential[a, b].sigma is None:
+                ctx.violation('snapshot:prism-sys-potential-without-sigma', 'object %d: the potential of pair %s in PRISM.sys has no contact distance although the object was wired with one' % (step + 1, key))
+                return
             v = float(s2.potential[a, b].sigma) if kind == 'sigma_equal' else float(round(cur + sp['dr'], 10))     # typed as the number currently in force / another one
             s2.potential[a, b].sigma = v
             sp['pot'][key] = dict(sp['pot'][key], sigma=v)
